@@ -59,6 +59,49 @@ def prefixed_items(rng, tier):
     return items
 
 
+def offset_products(rng, tier):
+    """A temperature reading as an operand of * and /: alone with power one (also under a prefix) it is the absolute temperature in
+    kelvin that enters the product, on either side and next to an operand of one or several units; inside a compound it is refused."""
+    V = unitlib.vocab()
+    others = [("3 s", Fraction(3), {"Second": 1}), ("2 m", Fraction(2), {"Meter": 1}), ("2 m*s", Fraction(2), {"Meter": 1, "Second": 1}),
+              ("5 kg/s", Fraction(5), {"KiloGram": 1, "Second": -1}), ("4 km", Fraction(4000), {"Meter": 1})]
+    alone = [("10 °C", to_k("C", Fraction(10))), ("50 °F", to_k("F", Fraction(50))), ("1 k°C", to_k("C", Fraction(1000))),
+             ("100 m°C", to_k("C", Fraction(1, 10))), ("300 K", Fraction(300)), ("-40 °F", to_k("F", Fraction(-40))), ("2 k°F", to_k("F", Fraction(2000)))]
+    comp = ["10 °C*m", "10 m*°C", "5 °F/s", "2 °C^2", "3 s/°C", "7 °F*kg", "1 k°C*m"]
+    items = []
+
+    def dims_mul(a, b, sign):
+        d = dict(a)
+        for k, v in b.items():
+            d[k] = d.get(k, 0) + sign * v
+        return {k: v for k, v in d.items() if v}
+    for (ot, ov, od) in others:
+        for (tt, tk) in alone:
+            for q, want, dims in (("%s * %s" % (ot, tt), ov * tk, dims_mul(od, {"Kelvin": 1}, 1)), ("%s * %s" % (tt, ot), ov * tk, dims_mul(od, {"Kelvin": 1}, 1)),
+                                  ("%s / %s" % (ot, tt), ov / tk, dims_mul(od, {"Kelvin": 1}, -1)), ("%s / %s" % (tt, ot), tk / ov, dims_mul({"Kelvin": 1}, od, -1))):
+                if tier == "quick" and rng.random() < 0.5:
+                    continue
+
+                def o(reply, want=want, dims=dims):
+                    v = pipeline.single_value(reply)
+                    if v is None or V.has_offset(v[2]) or V.si(v[0], v[1], v[2]) != want or V.dims(v[2]) != dims:
+                        return {"why": "a temperature standing alone enters a product as its absolute value in kelvin: expected SI %s with %s" % (want, dims),
+                                "expected": str(want)}
+                    return None
+                items.append((q, o))
+        for ct in comp:
+            for q in ("%s * %s" % (ot, ct), "%s * %s" % (ct, ot), "%s / %s" % (ot, ct), "%s / %s" % (ct, ot)):
+                if tier == "quick" and rng.random() < 0.5:
+                    continue
+
+                def o2(reply):
+                    if pipeline.is_error(reply):
+                        return None
+                    return {"why": "an offset scale inside a compound took part in a product", "expected": "error or the interval reading"}
+                items.append((q, o2))
+    return items
+
+
 def run(rng, tier, model_ok):
     V = unitlib.vocab()
     items = []
@@ -86,6 +129,9 @@ def run(rng, tier, model_ok):
     for it in prefixed_items(rng, tier):
         items.append(it)
         stats["prefixed"] = stats.get("prefixed", 0) + 1
+    for it in offset_products(rng, tier):
+        items.append(it)
+        stats["products"] = stats.get("products", 0) + 1
     # chains up to length four, and back
     for _ in range(60 if tier == "quick" else 1500):
         x = rng.choice(mags)
